@@ -30,6 +30,7 @@
 (*   Q5 a terminated pool owner still counts as a pool (its delegators' entries stay): it may go online       *)
 (*   Q6 committed state never shows status Killed: the record is deleted (status reads Undefined)             *)
 (*   Q7 the link invitee -> inviter of a not yet activated invitation survives the inviter's termination      *)
+(*   Q8 an offline penalty is served by time spent online (a long gap between two blocks serves it at once)   *)
 EXTENDS Integers, Sequences, FiniteSets, TLC
 
 Cer == INSTANCE Ceremony WITH inp <- "na", out <- "na"
@@ -246,9 +247,14 @@ Enabled(s, o) ==
                                /\ (o.rw => (s.st = "C" /\ o.out = "N" /\ s.lnk))
       [] OTHER -> TRUE
 
+\* the block that starts the next validation period.  Q8: penalty seconds are served by the time an identity is online and
+\* rewarded (member of the final committee); the flip lottery starts a day or more after anything a path did before, which
+\* serves the whole penalty (8 hours) of an online identity
+StartPeriod(s) == [s EXCEPT !.per = s.per + 1, !.pen = IF s.per = 0 /\ s.pen = "active" /\ s.on THEN "none" ELSE s.pen]
+
 BlockEff(s, o) ==
     CASE o.n = "Flush"      -> Flush(s, IsPool(s), FALSE, s.rv)
-      [] o.n = "NextPeriod" -> [s EXCEPT !.per = s.per + 1]
+      [] o.n = "NextPeriod" -> StartPeriod(s)
       [] o.n = "Penalty"    -> [s EXCEPT !.pen = "delayed"]
       [] o.n = "EpochEnd"   -> EpochEff(s, o)
 
